@@ -50,6 +50,14 @@ class PushP:
             self.leaves_on_pause = False
             self.drv.left_on_pause += 1
             self.drv.unregister(self, force=True)
+        if getattr(self, "evicts_on_pause", False):
+            # a controller that, when the link stalls, cancels another (lower-priority) transfer of the same application:
+            # a producer that may come later in the rotation is unregistered from inside this one's pause
+            others = [q for q in self.drv.producers if q is not self and q.registered and self.drv.side_of(q.proto) == self.drv.side_of(self.proto)]
+            if others:
+                self.evicts_on_pause = False
+                self.drv.evicted_on_pause = getattr(self.drv, "evicted_on_pause", 0) + 1
+                self.drv.unregister(self.drv.rng.choice(others), force=True)
 
     def resumeProducing(self):
         self._sig("resume")
@@ -299,6 +307,7 @@ class Driver:
                             # the application falls back to an ordinary producer for this subchannel
                         prod = (QueuePushP if rng.random() < 0.2 else PushP)(self, p, ignores=rng.random() < 0.15)
                         prod.leaves_on_pause = rng.random() < 0.12
+                        prod.evicts_on_pause = rng.random() < 0.15
                         self.falsy_producers += int(isinstance(prod, QueuePushP))
                         streaming = True
                     else:
@@ -575,7 +584,7 @@ def run_case(spec):
             "counters": {"probes": stats["probes"], "producer_pauses": pauses, "producer_resumes": resumes,
                          "producers": len(drv.producers), "pull_producers": sum(q.kind == "pull" for q in drv.producers), "pull_producers_finished": pull_finished,
                          "inbound_pause_calls": drv.inbound_calls, "pauses_inside_dataReceived": drv.pauses_in_data, "cuts": stats["cuts"], "notrans_seen": len(MON.notrans),
-                         "log_errors_seen": len(MON.errors), "producers_that_are_false": drv.falsy_producers, "producers_left_inside_pause": drv.left_on_pause, "pauses_after_connectionLost": drv.late_pauses, "unregisters_in_connectionLost": drv.unregisters_in_connectionLost, "unhashable_producers_tried": drv.unhashable_tried, "pauses_inside_connectionMade": drv.pauses_in_made, "pull_producers_declaring_IProducer_only": drv.plain_pull},
+                         "log_errors_seen": len(MON.errors), "producers_that_are_false": drv.falsy_producers, "producers_left_inside_pause": drv.left_on_pause, "producers_unregistered_by_another_ones_pause": getattr(drv, "evicted_on_pause", 0), "pauses_after_connectionLost": drv.late_pauses, "unregisters_in_connectionLost": drv.unregisters_in_connectionLost, "unhashable_producers_tried": drv.unhashable_tried, "pauses_inside_connectionMade": drv.pauses_in_made, "pull_producers_declaring_IProducer_only": drv.plain_pull},
             "sets": {"logged_errors": sorted({e[0] + ":" + e[3] for e in MON.errors})},
             "sample": {"spec": spec, "buffer_size": r.default_buffer_size,
                        "producers": [(q.proto.name, q.kind, [w for (_, w) in q.signals][:10]) for q in drv.producers][:5],
